@@ -395,7 +395,13 @@ func (w *world) step(i int, st simcore.Step) bool {
 				return !run.Stop()
 			}
 			got := n.AllBalances(n.Ctx, n.Accts[ps.owner]).Sub(before...)
-			if qerr != nil || !got.Equal(wantC) {
+			// what the position forfeits goes to the liquidity that is active at that moment; when there is none
+			// (active liquidity below one) it is handed to the sender, which the property allows ("never paid to it
+			// WHILE OTHER LIQUIDITY IS ACTIVE")
+			noneActive := liqNow.LT(osmomath.OneDec())
+			if noneActive && !wantF.IsZero() && got.Equal(wantC.Add(wantF...)) {
+				run.Probe("forfeit-returned-to-sender-no-active-liquidity")
+			} else if qerr != nil || !got.Equal(wantC) {
 				run.Fail("C08", "claim-equals-claimable", "incentives", "position %d: claimable incentives %s (forfeit %s, err %v) but the claim paid %s", ps.id, wantC, wantF, qerr, got)
 				if run.Enabled("C08") {
 					return false
